@@ -124,6 +124,25 @@ PROPS['C20'] = {
     'probes': ['images_released', 'faults_fired', 'set_alpha_map', 'gc_insert', 'gc_remove', 'set_destroy'],
 }
 
+PROPS['C16'] = {
+    'level': 'exploration',
+    'passes': [{'variant': 'asan', 'binary': 'thread', 'runs': [8000, 300000], 'deadline_s': [120, 2400], 'tag': 'asan'},
+               {'variant': 'tsan', 'binary': 'thread', 'runs': [4000, 150000], 'deadline_s': [120, 2400], 'tag': 'tsan'}],
+    'crash_property': 'C16',
+    'recheck': 40,
+    'rule': ("one evaluation = one seeded scene of 2-4 (thorough: -6) real pthreads, each with an explicit list of 10-25 (-40) operations (composites through fast paths and the general "
+             "path, fills, fill_boxes, trapezoids, triangles, glyph runs, region algebra, private setters) on thread-private destinations, regions and glyph caches; four source "
+             "images are shared read-only after a first use on the main thread; and one explicit schedule: at every scheduling point (API boundary, hooks H2/H3 around the fast "
+             "path cache and in _pixman_image_validate, every k-th accessor callback) a decision 'stay' or 'switch to runnable thread j'.  Exactly one thread runs at a time "
+             "(futex baton).  Checked: alone = together for every thread, the access ledger of the hooked sites, and (second pass) ThreadSanitizer, to which the baton is "
+             "invisible.  Non-trivial = at least 2 context switches taken; distinct = distinct realised interleavings (hash of the (point, from, to) sequence)"),
+    'real_vs_stub': {'real': IMG_REAL + ['real pthreads; real thread-local dispatch cache'],
+                     'stub_or_simulated': ['thread scheduler (seeded baton: who runs is never left to the OS)', 'pixel storage from the simulator arena', 'accessor callbacks']},
+    'assumptions': COMMON_ASSUME + ["code between two scheduling points runs atomically in the serialised schedule; the TSan pass covers race DETECTION at every instrumented access, but result corruption that needs a switch at an un-hooked instruction is out of reach",
+                                    "the implementation chain is installed by the main thread before the workers exist (as the load-time constructor does)"],
+    'probes': ['context_switches', 'points@fast-path-cache:store', 'points@image:dirty-test', 'points@image:recompute'],
+}
+
 MANIFEST_TEXT = {}
 MANIFEST_TEXT['C06'] = {
     'technique': 'deterministic simulation: seeded operation histories with allocation-fault events against the real region code; canonical-form invariants + point-set equality oracle after every step',
@@ -171,4 +190,11 @@ MANIFEST_TEXT['C20'] = {
     'level_text': "seeded search over lifetime histories; every step checked against the model, every history ends with all references dropped and an empty allocation ledger",
     'level_note': "trusts the 80-line lifetime model and the allocator wrapper's live table; ASan makes use-after-free visible",
     'design_ref': 'DESIGN.md section 4, C20',
+}
+
+MANIFEST_TEXT['C16'] = {
+    'technique': 'deterministic simulation of threads: real pthreads released one at a time by a seeded baton scheduler at API boundaries, guarded library hooks and accessor callbacks; alone-vs-together oracle, access ledger, and ThreadSanitizer under the same replayable schedules',
+    'level_text': "seeded search over interleavings (one seed = one exactly repeatable schedule) and workloads; thousands of distinct interleavings per run, counted",
+    'level_note': "yield points exist only where listed; TSan sees every instrumented access but only under serialised schedules",
+    'design_ref': 'DESIGN.md section 4, C16',
 }
